@@ -97,6 +97,7 @@ WORLDS = {
     # name: ndim, seg, scale, pos mode, extra features, custom features, ids mode
     "noseg-2d": dict(ndim=3, seg=False, scale=None, pos="single", extra=[], custom=True, ids="compute"),
     "noseg-2d-given": dict(ndim=3, seg=False, scale=None, pos="single", extra=[], custom=True, ids="given"),
+    "noseg-2d-given0": dict(ndim=3, seg=False, scale=None, pos="single", extra=[], custom=True, ids="given0"),
     "noseg-2d-fd": dict(ndim=3, seg=False, scale=None, pos="single", extra=[], custom=False, ids="featuredict"),
     # renamed time / position / track / lineage keys
     "noseg-2d-renamed": dict(ndim=3, seg=False, scale=None, pos="single", extra=[], custom=True, ids="compute",
@@ -115,6 +116,9 @@ WORLDS = {
     "seg-2d-aniso-ell": dict(ndim=3, seg=True, scale=[1.0, 2.0, 0.75], pos="single",
                        extra=["ellipse_axis_radii"], custom=False, ids="compute"),
     "seg-2d-fd": dict(ndim=3, seg=True, scale=None, pos="single", extra=[], custom=False, ids="featuredict"),
+    # pre-built FeatureDict whose area values on the graph are stale (1.0): only an explicit
+    # enable_features(["area"]) (recomputation) makes them trustworthy
+    "seg-2d-fd-stale": dict(ndim=3, seg=True, scale=None, pos="single", extra=[], custom=False, ids="featuredict", stale=["area"]),
     "seg-3d": dict(ndim=4, seg=True, scale=None, pos="single", extra=["iou"], custom=False, ids="compute"),
     "seg-3d-aniso": dict(ndim=4, seg=True, scale=[1.0, 2.0, 1.0, 0.75], pos="single", extra=["iou"], custom=True, ids="compute"),
     "seg-3d-all": dict(ndim=4, seg=True, scale=[1.0, 2.0, 1.0, 0.75], pos="single",
@@ -203,13 +207,14 @@ def make_graph(w, seed) -> tuple[nx.DiGraph, np.ndarray | None]:
             g.add_edge(u, v, w=float(u * 10 + v) - 12.0)  # edge (1, 2) carries the falsy value 0.0
         else:
             g.add_edge(u, v)
-    if w["ids"] in ("given", "featuredict"):
+    if w["ids"] in ("given", "featuredict", "given0"):
+        zero = w["ids"] == "given0"  # zero-based ids: the falsy id 0 is a legal track / lineage id
         for i, s in enumerate(sorted(segments(g), key=lambda s: min(s))):
             for n in s:
-                g.nodes[n][w["keys"]["track"]] = 3 * i + 2
+                g.nodes[n][w["keys"]["track"]] = i if zero else 3 * i + 2
         for j, c in enumerate(sorted(components(g), key=lambda s: min(s))):
             for n in c:
-                g.nodes[n][w["keys"]["lineage"]] = 2 * j + 5
+                g.nodes[n][w["keys"]["lineage"]] = j if zero else 2 * j + 5
     return g, seg
 
 
@@ -240,7 +245,7 @@ def build(w, seed) -> SolutionTracks:
             twin.enable_features(["iou"])
             for n in g.nodes:
                 g.nodes[n]["pos"] = twin.graph.nodes[n]["pos"]
-                g.nodes[n]["area"] = twin.graph.nodes[n]["area"]
+                g.nodes[n]["area"] = 1.0 if "area" in w.get("stale", ()) else twin.graph.nodes[n]["area"]
             for e in g.edges:
                 g.edges[e]["iou"] = twin.graph.edges[e]["iou"]
             feats["area"] = Area(ndim=w["ndim"])
